@@ -1599,4 +1599,40 @@ theorem walk_inside {root : Shape} : ∀ (π : List Nat) (t n : LT) (W : Option 
     · cases h
     · exact walk_inside π _ n _ w' (clip_inside hW t.pos t.size) h
 
+/-! ## the image cell stays inside the surface the image view holds -/
+
+theorem roundUp_le {a p n : Nat} (_hp : 0 < p) (h : a ≤ n * p) : (if a % p = 0 then a / p else a / p + 1) ≤ n := by
+  have hdm := Nat.div_add_mod a p
+  have hq : a / p ≤ n := Nat.div_le_of_le_mul (by rw [Nat.mul_comm]; exact h)
+  split
+  · exact hq
+  · rename_i hr
+    by_cases hlt : a / p < n
+    · omega
+    · have hqe : a / p = n := by omega
+      rw [hqe, Nat.mul_comm] at hdm
+      have : 0 < a % p := Nat.pos_of_ne_zero hr
+      omega
+
+theorem min_satMul_le (a n p : Nat) (hn : n < U) (hp : 0 < p) : Nat.min a (satMul n p) ≤ n * p := by
+  have h1 := natMin_le_right a (satMul n p)
+  have h2 : satMul n p ≤ n * p := by
+    unfold satMul
+    split
+    · exact Nat.le_refl _
+    · have : n * 1 ≤ n * p := Nat.mul_le_mul_left n hp
+      omega
+  exact Nat.le_trans h1 h2
+
+theorem imageExtent_le (ppc : Size) (ph pw sh sw : Nat) (hh : sh < U) (hw : sw < U) :
+    (imageExtent ppc ph pw sh sw).h ≤ sh ∧ (imageExtent ppc ph pw sh sw).w ≤ sw := by
+  unfold imageExtent sizeCells
+  split
+  · exact ⟨Nat.zero_le _, Nat.zero_le _⟩
+  · rename_i hne
+    simp only [Size.isEmpty, Bool.or_eq_true, beq_iff_eq, not_or] at hne
+    have hph : 0 < ppc.h := Nat.pos_of_ne_zero hne.1.1
+    have hpw : 0 < ppc.w := Nat.pos_of_ne_zero hne.1.2
+    exact ⟨roundUp_le hph (min_satMul_le ph sh ppc.h hh hph), roundUp_le hpw (min_satMul_le pw sw ppc.w hw hpw)⟩
+
 end SurfProofs.ViewLayoutL
